@@ -11,7 +11,7 @@ package redis
 // ops:  ft <ms> | acquire <i> | release <i> | setexpire <i> <seconds> | ids
 //       acquirectx <i> | releasectx <i>   the same calls entered through AcquireCtx / ReleaseCtx with a caller's context
 //       mass <m>           m further NewRedisLock calls on key k0 (instances dropped afterwards): all ids pairwise distinct and
-//                          distinct from the section's instances?  (birthday test of the id space) => distinct | dup
+//                          distinct from the section's instances?  (birthday test of the id space) => <distinct|dup> len=<16|other> <store>
 //       new <i>            NewRedisLock for a lazy instance, in the middle of the history (after SetExpire calls on
 //                          other instances, while others hold locks): its id must differ from every other instance's,
 //                          its `seconds` must be the zero value (nothing is inherited from other instances)
@@ -243,12 +243,39 @@ func c19ExhaustiveInj() []verifh.Section {
 	return out
 }
 
+// c19ExhaustiveNew: every sequence of length 4 over an alphabet with a construction in the middle of the history
+// (`new 2`, lazily constructed third instance on the one key), SetExpire on the other instances (small and at the
+// uint32-ms boundary 4294967) and the matching clock advances; operations of instance 2 only after its construction.
+func c19ExhaustiveNew() []verifh.Section {
+	alpha := []string{"setexpire 0 1", "setexpire 1 4294967", "new 2", "acquire 0", "acquire 1", "acquire 2", "release 2", "ft 500", "ft 4294967000"}
+	var out []verifh.Section
+	var rec func(prefix []string, made bool)
+	rec = func(prefix []string, made bool) {
+		if len(prefix) == 4 {
+			out = append(out, verifh.Section{Cfg: "n=3 keys=1 lazy=1", Ops: append([]string{}, prefix...)})
+			return
+		}
+		for _, a := range alpha {
+			uses2 := strings.HasSuffix(a, " 2")
+			if a == "new 2" && made || a != "new 2" && uses2 && !made {
+				continue
+			}
+			rec(append(append([]string{}, prefix...), a), made || a == "new 2")
+		}
+	}
+	rec(nil, false)
+	return out
+}
+
 func c19Gen(r *verifh.Rng) []verifh.Section {
 	var secs []verifh.Section
 	if verifh.Thorough() {
 		secs = append(secs, c19Exhaustive(int(verifh.Seed()%3))...)
 		if verifh.Seed()%3 == 1 {
 			secs = append(secs, c19ExhaustiveInj()...)
+		}
+		if verifh.Seed()%3 == 0 {
+			secs = append(secs, c19ExhaustiveNew()...)
 		}
 	}
 	nsec := verifh.Scale(150, 800)
@@ -830,7 +857,7 @@ func TestVerifC19(t *testing.T) {
 					return "bad-op"
 				}
 				seen := make(map[string]bool, m)
-				res := "distinct"
+				res, shape := "distinct", "len=16"
 				for a := 0; a < m; a++ {
 					l := NewRedisLock(client, "k0")
 					_, clash := idOf[l.id]
@@ -838,12 +865,11 @@ func TestVerifC19(t *testing.T) {
 						res = "dup"
 					}
 					if len(l.id) != 16 || !alphaOK(l.id) {
-						res += " malformed"
-						break
+						shape = "len=other"
 					}
 					seen[l.id] = true
 				}
-				return res + " " + dump()
+				return res + " " + shape + " " + dump()
 			case op[0] == "new" && len(op) == 2:
 				i := verifh.Atoi(op[1])
 				if i < 0 || i >= n || locks[i] != nil {
